@@ -42,6 +42,8 @@ type result struct {
 	Status   string     `json:"status"`
 	Detail   string     `json:"detail,omitempty"`
 	Registry []regEntry `json:"registry,omitempty"`
+	// what the process-global registry held BEFORE the manifests were registered (the generator's native types)
+	Initial []regEntry `json:"initial,omitempty"`
 }
 
 func emit(r result, code int) {
@@ -109,10 +111,11 @@ func main() {
 		})
 		return l
 	}
+	initial := dump(false)
 	func() {
 		defer func() {
 			if e := recover(); e != nil {
-				emit(result{Status: "panic", Detail: fmt.Sprint(e), Registry: dump(false)}, 2)
+				emit(result{Status: "panic", Detail: fmt.Sprint(e), Registry: dump(false), Initial: initial}, 2)
 			}
 		}()
 		var err error
@@ -122,8 +125,8 @@ func main() {
 			err = cmd.GenerateCode(*out, manifests, *withRoot)
 		}
 		if err != nil {
-			emit(result{Status: "error", Detail: err.Error(), Registry: dump(false)}, 1)
+			emit(result{Status: "error", Detail: err.Error(), Registry: dump(false), Initial: initial}, 1)
 		}
 	}()
-	emit(result{Status: "ok", Registry: dump(true)}, 0)
+	emit(result{Status: "ok", Registry: dump(true), Initial: initial}, 0)
 }
